@@ -624,6 +624,37 @@ def m_clone(c, call, v):
     return clone_val(v)
 
 
+@regp(r'^(std::|core::)?mem::size_of$')
+def m_size_of(c, call):
+    m = re.search(r'size_of::<(.*)>$', call.callee.strip(), re.S)
+    t = m.group(1).strip() if m else ''
+    sz = {'u8': 1, 'i8': 1, 'bool': 1, 'u16': 2, 'i16': 2, 'u32': 4, 'i32': 4, 'char': 4, 'u64': 8, 'i64': 8, 'usize': 8, 'isize': 8, 'u128': 16, 'i128': 16}.get(t)
+    if sz is None: raise Unsupported('size_of::<' + t + '>')
+    return z3.BitVecVal(sz, 64)
+
+
+@reg('Option::is_some_and', 'Result::is_ok_and')
+def m_opt_is_some_and(c, call, o, f):
+    o = deref(o)
+    if o.variant in ('None', 'Err'): return FALSE
+    return c.callf(f, [o.fields[0]])
+
+
+@reg('Option::is_none_or')
+def m_opt_is_none_or(c, call, o, f):
+    o = deref(o)
+    if o.variant == 'None': return TRUE
+    return c.callf(f, [o.fields[0]])
+
+
+@reg('Option::filter')
+def m_opt_filter(c, call, o, f):
+    o = deref(o)
+    if o.variant == 'None': return o
+    keep = c.callf(f, [o.fields[0]])
+    return o if c.branch(keep) else NONE()
+
+
 @reg('Clone::clone_from', 'Vec::clone_from', 'String::clone_from')
 def m_clone_from(c, call, r, src):
     new = clone_val(src)
@@ -1165,6 +1196,16 @@ def m_hs_iter(c, call, s):
     if call.key.endswith('keys'): return IterV([k for k, _ in s.items])
     if call.key.endswith('values'): return IterV([v for _, v in s.items])
     return IterV([Tup([k, v]) for k, v in s.items])
+
+
+@reg('HashMap::drain', 'HashSet::drain')
+def m_hm_drain(c, call, m):
+    """empties the container; the drained pairs come in declaration order (the order of a hash container is
+    unspecified; lanes that depend on it must not rely on this model)"""
+    m = deref(m)
+    items = list(m.items); m.items = []
+    if isinstance(m, SetV): return IterV(items)
+    return IterV([Tup([k, v]) for k, v in items])
 
 
 @reg('Mutex::lock', 'RwLock::read', 'RwLock::write')
